@@ -73,6 +73,7 @@ def r1_failed_line_offset(ctx):
     rep = ctx.rep
     q = DT + '.failed_line_offset'
     f, g, ev, rets = _returns(ctx, q, DENO_DOCTEST)
+    rd = ctx.rd(f)
     classes = {'GotWantException': 'Lw - Ld', 'ExtractGotReprException': 'Lw - 1 - Ld', 'ExistingEventLoopError': 'Lw - 1 - Ld'}
     seen = {}
     generic = []
@@ -87,7 +88,13 @@ def r1_failed_line_offset(ctx):
         pos = []
         for fa in facts:
             if isinstance(fa.expr, ast.Call) and is_name(fa.expr.func, 'isinstance') and fa.polarity is True and len(fa.expr.args) == 2:
-                names = {x.attr if isinstance(x, ast.Attribute) else x.id for x in ast.walk(fa.expr.args[1]) if isinstance(x, (ast.Attribute, ast.Name))}
+                cls_expr = fa.expr.args[1]
+                if isinstance(cls_expr, ast.Name):
+                    # a tuple of classes held in a local
+                    ds = [d for d in rd.defs_of(cls_expr.id) if isinstance(d.value, ast.AST)]
+                    if len(ds) == 1:
+                        cls_expr = ds[0].value
+                names = {x.attr if isinstance(x, ast.Attribute) else x.id for x in ast.walk(cls_expr) if isinstance(x, (ast.Attribute, ast.Name))}
                 pos += [c for c in classes if c in names]
         if pos:
             for c in pos:
@@ -271,7 +278,10 @@ def r1_docstring_start(ctx):
     for (n, branches, env) in paths_to(g, stores, ev):
         facts = _branch_facts(branches)
         multi = any(isinstance(fa.expr, ast.Call) and isinstance(fa.expr.func, ast.Attribute) and fa.expr.func.attr == 'startswith' and fa.polarity is True for fa in facts)
-        if multi:
+        # the fallback of a search that found nothing (`if start is None: start = ...`) is not the triple-quoted computation
+        fallback = any(isinstance(fa.expr, ast.Compare) and len(fa.expr.ops) == 1 and isinstance(fa.expr.ops[0], ast.Is) and is_name(fa.expr.left, 'start') and
+                       isinstance(fa.expr.comparators[0], ast.Constant) and fa.expr.comparators[0].value is None and fa.polarity is True for fa in facts)
+        if multi and not fallback:
             n_multi += 1
             val = ev.aeval(n.ast.value, env)
             spec_a = parse_spec('E0 - N')
